@@ -257,6 +257,8 @@ func genSel(r *rng.R, depth int, max int64, inRec bool) *selAst {
 	}
 }
 
+func i64(v int64) *int64 { return &v }
+
 func countKinds(s *selAst, m map[string]int) {
 	m[s.K]++
 	if s.N != nil {
@@ -466,6 +468,37 @@ func driveSelVal(c *ctx) error {
 			return fmt.Errorf("%s: %w", f, err)
 		}
 		run(rf.Case, "corpus")
+	}
+	// deep nestings: a recursion of each verdict class under 1..70 enclosing clauses of every kind
+	nd := 70
+	if c.thorough() {
+		nd = 400
+	}
+	for i := 0; i < nd; i++ {
+		r := c.r.Fork()
+		k := 1 + (i*7)%70
+		lims := []*int64{nil, i64(101), i64(100), i64(1)}
+		inner := &selAst{K: "rec", Lim: lims[i%4], N: &selAst{K: "all", N: &selAst{K: "edge"}}}
+		cur := inner
+		for j := 0; j < k; j++ {
+			switch r.Intn(7) {
+			case 0:
+				cur = &selAst{K: "all", N: cur}
+			case 1:
+				cur = &selAst{K: "fields", Keys: []string{"a"}, L: []*selAst{cur}}
+			case 2:
+				cur = &selAst{K: "index", I: 0, N: cur}
+			case 3:
+				cur = &selAst{K: "range", A: 0, B: 2, N: cur}
+			case 4:
+				cur = &selAst{K: "union", L: []*selAst{{K: "matcher"}, cur}}
+			case 5:
+				cur = &selAst{K: "rec", Lim: i64(3), N: &selAst{K: "union", L: []*selAst{{K: "edge"}, cur}}}
+			default:
+				cur = &selAst{K: "interp", Adl: "unixfs", N: cur}
+			}
+		}
+		run(selCase{Sel: cur, Max: 100}, "deep")
 	}
 	n := c.count(3000, 30000)
 	for i := 0; i < n; i++ {
